@@ -32,21 +32,108 @@ func runC16(c *core.Ctx) {
 	{
 		const lg = "banyand/liaison/grpc"
 		why := "the tag positions used to compute the entity (hence the shard) of the following writes still come from the previous resource's schema and spec: the shard depends on the stream's history, not only on (name, entity values, shard count)"
-		for _, spec := range []struct{ fn, loc string }{
-			{"(*traceService).Write", "specLocator"},
-			{"(*traceService).Write", "spec"},
-			{"(*measureService).Write", "specEntityLocator"},
-			{"(*measureService).Write", "specShardingKeyLocator"},
-			{"(*measureService).Write", "spec"},
-			{"(*streamService).Write", "specLocator"},
-			{"(*streamService).Write", "spec"},
+		isMeta := func(p *ssa.Phi) bool {
+			return strings.HasSuffix(p.Type().String(), "common/v1.Metadata") && flowsFromCallSuffix(p, ").GetMetadata", 0)
+		}
+		isSpec := func(p *ssa.Phi) bool {
+			t := p.Type().String()
+			return (strings.HasSuffix(t, "Spec") || strings.Contains(t, "Spec")) && !strings.Contains(t, "Locator") &&
+				(flowsFromCallSuffix(p, ").GetDataPointSpec", 0) || flowsFromCallSuffix(p, ").GetTagFamilySpec", 0) || flowsFromCallSuffix(p, ").GetTagSpec", 0))
+		}
+		// locator k: a *specLocator / *traceSpecLocator fed by result k of the locator builder
+		isLoc := func(k int) func(p *ssa.Phi) bool {
+			var from func(v ssa.Value, d int) bool
+			from = func(v ssa.Value, d int) bool {
+				if d > 12 || v == nil {
+					return false
+				}
+				switch x := v.(type) {
+				case *ssa.Extract:
+					c, ok := x.Tuple.(*ssa.Call)
+					return ok && x.Index == k && strings.Contains(ssax.CalleeName(c.Common()), "SpecLocator")
+				case *ssa.Call:
+					return k == 0 && strings.Contains(ssax.CalleeName(x.Common()), "SpecLocator")
+				case *ssa.Phi:
+					if d > 0 && isLoopHeader(x.Block()) {
+						return false
+					}
+					for _, e := range x.Edges {
+						if from(e, d+1) {
+							return true
+						}
+					}
+				}
+				return false
+			}
+			return func(p *ssa.Phi) bool { return strings.HasSuffix(p.Type().String(), "pecLocator") && from(p, 0) }
+		}
+		for _, spec := range []struct {
+			fn, loc string
+			sel     func(*ssa.Phi) bool
+		}{
+			{"(*traceService).Write", "the trace spec locator", isLoc(0)},
+			{"(*traceService).Write", "the tag spec", isSpec},
+			{"(*measureService).Write", "the entity spec locator", isLoc(0)},
+			{"(*measureService).Write", "the sharding-key spec locator", isLoc(1)},
+			{"(*measureService).Write", "the data point spec", isSpec},
+			{"(*streamService).Write", "the stream spec locator", isLoc(0)},
+			{"(*streamService).Write", "the tag family spec", isSpec},
 		} {
 			if f := r.fn("c16.locator-follows-metadata", lg, spec.fn); f != nil {
-				r.pairedLoopUpdate("c16.locator-follows-metadata", f, "metadata", spec.loc, why)
+				r.pairedLoopUpdateSel("c16.locator-follows-metadata", f, "the metadata", spec.loc, isMeta, spec.sel, why)
 			}
 		}
 		r.Floor("c16.locator-follows-metadata", 7)
 	}
+	// 0c. the cached sharding-key locator of a measure tracks its CURRENT schema: every add-or-update event
+	// for a measure either installs the locator or removes the stale one
+	{
+		rule := "c16.sharding-locator-tracks-schema"
+		const lg = "banyand/liaison/grpc"
+		// OnDelete may skip a measure without a sharding key: by the invariant kept here no entry exists for it
+		for _, name := range []string{"OnAddOrUpdate"} {
+			f := r.fn(rule, lg, "(*shardingKeyRepo)."+name)
+			if f == nil {
+				continue
+			}
+			onMap := func(v ssa.Value) bool {
+				fv := ssax.FieldOf(v)
+				if fv == nil {
+					if u, ok := v.(*ssa.UnOp); ok {
+						fv = ssax.FieldOf(u.X)
+					}
+				}
+				return fv != nil && fv.Name() == "shardingKeysMap"
+			}
+			touch := func(in ssa.Instruction) bool {
+				switch x := in.(type) {
+				case *ssa.MapUpdate:
+					return onMap(x.Map)
+				case *ssa.Call:
+					if b, ok := x.Call.Value.(*ssa.Builtin); ok && b.Name() == "delete" && len(x.Call.Args) > 0 {
+						return onMap(x.Call.Args[0])
+					}
+				}
+				return false
+			}
+			construct := ssax.FuncName(f) + ": every measure event updates or removes the cached sharding-key locator"
+			var start ssa.Instruction
+			for _, in := range ssax.Find(f, func(in ssa.Instruction) bool { _, ok := in.(*ssa.TypeAssert); return ok }) {
+				start = in
+			}
+			if start == nil {
+				r.Undecide(rule, construct, r.fpos(f), "no type assertion of the event's spec found")
+				continue
+			}
+			if tgt, path, found := (ssax.Search{Target: ssax.IsReturn, Avoid: touch}).From(f, start); found {
+				r.Violate(rule, construct, r.pos(tgt), fmt.Sprintf("a measure event can leave the handler at %s (blocks %s) without touching shardingKeysMap: when an update removes the sharding key the old locator stays cached, and this coordinator keeps routing by it while a coordinator that only saw the new schema routes by the entity", r.pos(tgt), blocksStr(path)))
+			} else {
+				r.Hold(rule, construct, r.fpos(f), "")
+			}
+		}
+		r.Floor(rule, 1)
+	}
+
 	// 0b. the spec locators are built from the schema's entity / sharding-key tag names respectively
 	if f := r.fn("c16.locator-sources", "banyand/liaison/grpc", "(*measureService).buildSpecLocators"); f != nil {
 		rule := "c16.locator-sources"
